@@ -187,50 +187,38 @@ def run(ctx, chk):
     f = ctx.rspirv.fn(LIFT, "convert", "LiftContext", False)
     WC = raw.where("convert", "LiftContext", "lift/mod.rs")
 
-    def cond_sites(pred):
-        return [(show(n), c) for n, c in sites(f["body"], pred)]
-    s1 = cond_sites(lambda n: n[0] == "mcall" and n[2] == "append_id" and show(n[1]) == "context.types")
-    chk.check(R2, len(s1) == 1 and s1[0][1] == ["context.lift_type(inst) matches Ok(value)", "(let Some(id) = inst.result_id)"] and s1[0][0] == "context.types.append_id(id, value)",
-              "types.append_id", "sites: %s" % s1, WC)
-    s2 = cond_sites(lambda n: n[0] == "mcall" and n[2] == "append_id" and show(n[1]) == "context.constants")
-    chk.check(R2, len(s2) == 1 and s2[0][1] == ["context.lift_constant(inst) matches Ok(value)", "(let Some(id) = inst.result_id)"] and s2[0][0] == "context.constants.append_id(id, value)",
-              "constants.append_id", "sites: %s" % s2, WC)
-    loops = [show(n[2]) for n in walk(f["body"]) if n[0] == "for"]
-    chk.check(R2, loops[:4] == ["module.types_global_values.iter()", "module.functions.iter()", "fun.blocks.iter()", "&block.instructions"],
-              "loops", "loops are %s" % loops, WC, sample=loops)
-    s3 = cond_sites(lambda n: n[0] == "mcall" and n[2] == "push" and path_of(n[1]) == "arguments")
-    chk.check(R2, len(s3) == 1 and s3[0][1] == ["inst.class.opcode matches spirv::Op::Phi"] and s3[0][0] == "arguments.push(ty)", "phi->arguments",
-              "phi argument push sites: %s" % s3, WC, key="C18:phi-arguments")
-    ty_src = [show_stmt(s) for s in walk_stmts(f["body"]) if show_stmt(s).startswith("let ty = context.types.lookup_token(")]
-    chk.check(R2, len(ty_src) == 1 and "inst.result_type.ok_or(InstructionError::MissingResult)?" in ty_src[0], "phi-argument-is-result-type", "ty = %s" % ty_src, WC)
-    s4 = cond_sites(lambda n: n[0] == "mcall" and n[2] == "append" and show(n[1]) == "context.ops")
-    chk.check(R2, len(s4) == 1 and s4[0][1] == ["inst.class.opcode matches _", "(let Some(id) = inst.result_id)"] and s4[0][0] == "context.ops.append(id, op)", "ops.append",
-              "sites: %s" % s4, WC)
-    s5 = cond_sites(lambda n: n[0] == "mcall" and n[2] == "lift_op")
-    chk.check(R2, len(s5) == 1 and s5[0][0] == "context.lift_op(inst)", "lift_op(inst)", "sites: %s" % s5, WC)
-    # match arms of the instruction loop: Line skipped, Phi, everything else
-    arms = []
-    for n in walk(f["body"]):
-        if n[0] == "match" and show(n[1]) == "inst.class.opcode":
-            arms = [show(a[0]) for a in n[2]]
-    chk.check(R2, arms == ["spirv::Op::Line", "spirv::Op::Phi", "_"], "instruction-dispatch", "arms are %s" % arms, WC)
-    txt = show(f["body"])
-    chk.check(R2, "context.lift_terminator(block.instructions.last().ok_or(ConversionError::MissingTerminator)?)?" in txt, "terminator=last-instruction", "terminator source changed", WC)
-    chk.check(R2, "context.blocks.append_id(block.label.as_ref().unwrap().result_id.unwrap(), module::Block { arguments: arguments, ops: Vec::new(), terminator: terminator })" in txt
-              or re.search(r"context\.blocks\.append_id\(block\.label\.as_ref\(\)\.unwrap\(\)\.result_id\.unwrap\(\), module::Block \{ arguments(: arguments)?, ops: (Vec::new\(\)|vec!\[\]), terminator(: terminator)? \}\)", txt) is not None,
-              "one-block-per-block", "block construction changed", WC)
-    fn_ok = re.search(r"functions\.push\(module::Function \{ control: def\.function_control, result: context\.types\.lookup_token\(fun_ret\), parameters: (Vec::new\(\)|vec!\[\]), blocks(: blocks)?, start_block(: start_block)? \}\)", txt)
-    chk.check(R2, fn_ok is not None and "let def = context.lift_function(fun.def.as_ref().ok_or(ConversionError::MissingFunction)?)?;" in txt and
-              'let fun_ret = fun.def.as_ref().and_then(|d| d.result_type).expect("functions must have a result type");' in txt, "function-record",
-              "function construction changed", WC)
-    chk.check(R2, "version: match module.header { Some(ref header) => header.version, None => return Err(ConversionError::MissingHeader) }" in txt, "version=header.version",
-              "version source changed", WC)
-    chk.check(R2, "capabilities: module.capabilities.iter().map(|cap| context.lift_capability(cap).map(|cap| cap.capability)).collect()?" in txt,
-              "capabilities-in-order", "capability mapping changed", WC)
-    chk.check(R2, "memory_model: match module.memory_model { Some(ref mm) => context.lift_memory_model(mm)?, None => return Err(ConversionError::MissingHeader) }" in txt,
-              "memory-model", "memory model lifting changed", WC)
-    chk.check(R2, "types: context.types.unwrap()" in txt and "constants: context.constants.unwrap()" in txt and "ops: context.ops.unwrap()" in txt and
-              re.search(r"functions(: functions)?\b", txt) is not None, "storages-handed-over", "module fields changed", WC)
+    from . import liftx
+    try:
+        r, h = liftx.convert(ctx)
+    except Anchor as ex:
+        chk.bad(R2, "convert", "LiftContext::convert is not analysable: %s" % ex, WC, key="C18:convert-shape")
+        r, h = None, None
+    if r is not None:
+        want_ev = liftx.expected()
+        got_ev = h.events
+        names = ["type with result id -> types.append_id", "constant with result id -> constants.append_id", "function definition lifted",
+                 "result-producing non-phi instruction -> ops.append", "op info (token, type of the result type)", "block appended with phi argument types and the last instruction as terminator"]
+        for k, (nm, w) in enumerate(zip(names, want_ev)):
+            g = got_ev[k] if k < len(got_ev) else None
+            chk.check(R2, g == w, "convert:event %d (%s)" % (k, nm), "on the abstract module the walk performs %s, expected %s" % (str(g)[:220], str(w)[:220]), WC,
+                      key="C18:convert:event%d" % k, sample=str(w)[:200] if k == 5 else None)
+        chk.check(R2, len(got_ev) == len(want_ev), "convert:no-other-effects", "the walk performs %d storage effects, expected %d: %s" % (len(got_ev), len(want_ev), [e_[:3] for e_ in got_ev]), WC,
+                  key="C18:convert:extra")
+        ok = isinstance(r, tuple) and r[0] == "ok" and isinstance(r[1], tuple) and r[1][0] == "struct" and r[1][1] == "Module"
+        m = r[1][2] if ok else {}
+        tok = lambda st, i_: ("token", st, i_)
+        chk.check(R2, ok and m.get("version") == ("sym", "VERSION"), "convert:version=header.version", "version is %s" % (m.get("version"),), WC)
+        chk.check(R2, ok and m.get("capabilities") == ("list", [("capability_of", "CAP0"), ("capability_of", "CAP1")]), "convert:capabilities-in-order",
+                  "capabilities are %s" % (m.get("capabilities"),), WC)
+        chk.check(R2, ok and m.get("memory_model") == ("lifted_memory_model", "MM"), "convert:memory-model", "memory model is %s" % (m.get("memory_model"),), WC)
+        st_ok = ok and all(isinstance(m.get(k_), tuple) and m[k_][:2] == ("contents", k_) for k_ in ("types", "constants", "ops"))
+        chk.check(R2, st_ok, "convert:storages-handed-over", "types/constants/ops are %s" % [m.get(k_) for k_ in ("types", "constants", "ops")], WC)
+        fs = m.get("functions")
+        f_ok = ok and isinstance(fs, tuple) and fs[0] == "list" and len(fs[1]) == 1 and fs[1][0][0] == "struct" and fs[1][0][1] == "Function"
+        ff = fs[1][0][2] if f_ok else {}
+        chk.check(R2, f_ok and ff.get("control") == ("sym", "FUNCTION_CONTROL") and ff.get("result") == tok("types", ("rt", "DEF")) and
+                  isinstance(ff.get("blocks"), tuple) and ff["blocks"][:2] == ("contents", "blocks") and ff.get("start_block") == tok("blocks", ("id", "LABEL")),
+                  "convert:function-record", "function record is %s" % str(ff)[:300], WC)
     # LiftStorage: id -> token map (symbolic evaluation)
     from ..symeval import SymEval, Hooks, NONE, Panic as SPanic
 
